@@ -187,13 +187,17 @@ PlanQuick ==
     Seg(0, 1, {"distinct"}, AllPl, {"open", "file"}, {"plain"}, FALSE) }      \* the other ways to make a template
   \cup Others({"doc", "file"}, 3, AllPl)
 PlanThorough ==
-  { Seg(0, 3, {"distinct"}, AllPl, {"doc"}, {"plain"}, TRUE),
-    Seg(0, 2, {"distinct"}, AllPl, {"doc"}, AllCls \ {"plain"}, FALSE),
-    Seg(1, 3, {"same", "alt", "none"}, {"body", "cell", "nested", "loopother"}, {"doc"}, {"plain"}, FALSE),
+  { Seg(0, 3, {"distinct"}, AllPl, {"doc"}, {"plain"}, FALSE),                                 \* all 378 segmentations, everywhere
+    Seg(0, 3, {"distinct"}, {"body", "cell", "header"}, {"doc"}, {}, TRUE),                    \* ... with partial / no data
+    Seg(0, 2, {"distinct"}, AllPl, {"doc"}, AllCls \ {"plain"}, FALSE),                        \* value classes x placement
+    Seg(1, 2, {"same", "alt", "none"}, {"body", "cell", "nested", "loopother"}, {"doc"}, {"plain"}, FALSE),
+    Seg(3, 3, {"same", "alt", "none"}, {"body"}, {"doc"}, {"plain"}, FALSE),
     Seg(0, 0, {"none"}, {"body", "header", "footer"}, {"doc", "file"}, AllCls, TRUE),
-    SegT(Texts \ {"T0"}, 0, 3, {"distinct"}, {"body", "cell", "header", "bodyhf"}, {"doc"}, {"plain"}, TRUE),
-    SegT(Texts \ {"T0"}, 0, 2, {"distinct", "alt"}, AllPl, {"doc"}, AllCls \ {"plain"}, FALSE),
-    Seg(0, 2, {"distinct"}, AllPl, {"open", "file"}, {"plain", "xmlmeta"}, TRUE) }
+    SegT(Texts \ {"T0"}, 0, 3, {"distinct"}, {"body"}, {"doc"}, {"plain"}, TRUE),
+    SegT(Texts \ {"T0"}, 0, 2, {"distinct"}, {"cell", "header", "bodyhf"}, {"doc"}, {"plain"}, FALSE),
+    SegT(Texts \ {"T0"}, 0, 1, {"distinct"}, AllPl, {"doc"}, AllCls \ {"plain"}, FALSE),
+    Seg(0, 1, {"distinct"}, AllPl, {"open", "file"}, {"plain", "xmlmeta"}, TRUE),
+    Seg(2, 2, {"distinct"}, {"body", "header"}, {"open", "file"}, {"plain"}, FALSE) }
   \cup Others({"doc", "open", "file"}, 3, AllPl)
 PlanSim ==
   { SegT(Texts, 1, 1, {"distinct"}, AllPl, {"doc", "open"}, AllCls, TRUE) } \cup Others({"doc"}, 3, {"body", "cell", "header"})
@@ -201,8 +205,8 @@ PlanMCQuick ==
   { Seg(0, 1, {"distinct"}, {"body", "nested", "loopother", "header"}, {"doc"}, {"plain", "braces"}, TRUE),
     SegT({"T1", "T3"}, 0, 1, {"distinct"}, {"body"}, {"doc"}, {"plain"}, TRUE) } \cup Others({"doc"}, 2, {"body"})
 PlanMCThorough ==
-  { Seg(0, 2, {"distinct", "alt"}, AllPl, {"doc"}, AllCls, TRUE),
-    SegT(Texts \ {"T0"}, 0, 2, {"distinct"}, AllPl, {"doc"}, {"plain", "braces", "empty"}, TRUE) } \cup Others({"doc"}, 3, AllPl)
+  { Seg(0, 2, {"distinct"}, AllPl, {"doc"}, AllCls, TRUE),
+    SegT(Texts \ {"T0"}, 0, 1, {"distinct"}, AllPl, {"doc"}, {"plain", "braces", "empty"}, TRUE) } \cup Others({"doc"}, 3, AllPl)
 
 BasesOf(p) == CASE p.fam = "seg" -> SegBases(p) [] p.fam = "extras" -> ExtrasBases(p) [] p.fam = "loop" -> LoopBases [] p.fam = "image" -> ImageBases
 DataOf(p) == CASE p.fam = "seg" -> SegData(p.cls, p.pres) [] p.fam = "extras" -> ExtrasData [] p.fam = "loop" -> LoopData(p.items) [] p.fam = "image" -> ImageData
